@@ -132,7 +132,7 @@ func c02Run(c *Ctx, cs c02Case, viaDoc bool) {
 func init() {
 	Register(&Property{
 		ID:            "C02",
-		Rule:          "every builtin x every arity 0..max+1 x every argument vector over a 23-value pool (all JSON types, integral/non-integral/huge numbers, multi-byte strings, expression references), arguments passed as literals and through the document (failing calls are also re-run nested in another call, in an expression reference and in a multi-select; exhaustive for arity <= 3, arity 4 exhaustive in thorough / seeded 1-in-8 sample in quick); integer-parameter boundary lattice; seeded document-directed calls with caller-scope expression references (expression-reference bodies that call builtins again, incl. the same one); re-entrant pairs: every per-element construct (19: projections, filters, slices, map, sort_by, max_by, min_by, group_by, multi-selects, per-element let, zip) x every construct evaluated inside its body (32: the same list plus sort, reverse, join, merge, pad, split, comparisons, arithmetic, literals under [*] / filter / sort), over 2..14 records, also two levels down; large inputs: ~60 forms (every builtin and core construct that walks an array, object or string) over 1000..100000 elements at sizes around 2^10, 2^12, 2^15, 2^16; offender positions: one element/argument of each wrong type at the first/second/middle/last positions of arrays and argument lists of 1..65 members, for every builtin taking a homogeneous array or a variadic list; numeric boundaries: every builtin and operator that reads numbers x 44 integers/decimals at the 2^31..2^64 / 10^19 boundaries, as literals, strings and document values; wide forms: variadic calls, multi-selects, lets, operator/field/index/pipe chains and nestings with 1..257 members; each compared with the reference model; non-trivial = model decides the call; distinct by (call text, argument route); case-mapping stream: lower/upper over every code point that has a case mapping, compared with the model where every Unicode-aware implementation agrees; to_string round trip: every sequence of up to 2 (thorough 3) pieces from 26 special characters and escape fragments, inside arrays / objects / keys / nested to_string, must be JSON that decodes to the value",
+		Rule:          "every builtin x every arity 0..max+1 x every argument vector over a 23-value pool (all JSON types, integral/non-integral/huge numbers, multi-byte strings, expression references), arguments passed as literals and through the document (failing calls are also re-run nested in another call, in an expression reference and in a multi-select; exhaustive for arity <= 3, arity 4 exhaustive in thorough / seeded 1-in-8 sample in quick); integer-parameter boundary lattice; seeded document-directed calls with caller-scope expression references (expression-reference bodies that call builtins again, incl. the same one); re-entrant pairs: every per-element construct (19: projections, filters, slices, map, sort_by, max_by, min_by, group_by, multi-selects, per-element let, zip) x every construct evaluated inside its body (32: the same list plus sort, reverse, join, merge, pad, split, comparisons, arithmetic, literals under [*] / filter / sort), over 2..14 records, also two levels down; large inputs: ~60 forms (every builtin and core construct that walks an array, object or string) over 1000..100000 elements at sizes around 2^10, 2^12, 2^15, 2^16; offender positions: one element/argument of each wrong type at the first/second/middle/last positions of arrays and argument lists of 1..65 members, for every builtin taking a homogeneous array or a variadic list; numeric boundaries: every builtin and operator that reads numbers x 44 integers/decimals at the 2^31..2^64 / 10^19 boundaries, as literals, strings and document values; wide forms: variadic calls, multi-selects, lets, operator/field/index/pipe chains and nestings with 1..257 members; each compared with the reference model; non-trivial = model decides the call; distinct by (call text, argument route); case-mapping stream: lower/upper over every code point that has a case mapping, compared with the model where every Unicode-aware implementation agrees; to_string round trip: every sequence of up to 2 (thorough 3) pieces from 26 special characters and escape fragments, inside arrays / objects / keys / nested to_string, must be JSON that decodes to the value; trim-edges stream: every code point of Z*, Cc, Cf, the default-ignorable and blank-looking characters and all of Latin-1 at both edges of 6 subjects through the 6 spellings of the trim family (the model trims exactly the 25 white-space code points of the compliance corpus)",
 		MinNontrivial: 1000,
 		Streams: []Stream{
 			{Name: "matrix", Setup: c02Setup, Exhaustive: true, N: func(c *Ctx) int { c02Setup(c); return 2 * c02Count(0, 3) },
